@@ -72,6 +72,13 @@ func main() {
 			fmt.Fprintln(os.Stderr, "extract:", err)
 			os.Exit(1)
 		}
+	case "c08child":
+		if len(os.Args) < 3 {
+			usage()
+		}
+		os.Exit(c08ChildMain(os.Args[2]))
+	case "callpath":
+		debugCallPath(os.Args[2], os.Args[3])
 	case "list":
 		var ids []string
 		for id := range runners {
